@@ -593,6 +593,8 @@ class Ctx:
                     ('os.linesep = CRLF before the library is imported (another platform)', {'VERIF_PROBE_LINESEP': 'crlf'}, [], None),
                     ('debug logging turned on for every logger', {'VERIF_PROBE_LOGGING': 'debug'}, [], None),
                     ('four threads asking at once', {'VERIF_PROBE_THREADS': '4'}, [], None),
+                    ('the clock reads the year 1999', {'VERIF_PROBE_CLOCK': '1999'}, [], None),
+                    ('the clock reads the year 2150', {'VERIF_PROBE_CLOCK': '2150'}, [], None),
                     ('LC_ALL=C without UTF-8 mode', {'LC_ALL': 'C', 'LANG': 'C', 'PYTHONUTF8': '0', 'PYTHONCOERCECLOCALE': '0', 'PYTHONIOENCODING': ''}, [], None),
                     ('working directory / and TZ=Pacific/Kiritimati', {'TZ': 'Pacific/Kiritimati'}, [], '/')]
         # every environment variable the source reads, set to values an unrelated program or build may have left there
